@@ -124,6 +124,16 @@ func checkC06(c C06Case, o *Obs) error {
 				return fmt.Errorf("%s: CRLF rendering decodes to %s, LF rendering to %s (panic %v; LF input %s, longest line %d bytes)", c.Format, describeItems(got), describeItems(base), p, gen.Abbrev(text), c.Text.longestLine())
 			}
 		}
+		if c.Files {
+			// a file of several MiB: File(path) (plain and *.gz) against Reader on the same bytes
+			o.Class("file of several MiB")
+			for _, suffix := range []string{"." + c.Format, "." + c.Format + ".gz"} {
+				path := writeTemp(text, suffix)
+				if err := compare("File(a "+suffix+" file of "+fmt.Sprint(len(text))+" bytes)", func(cb func(Item) bool) { codec.File(path, cb) }); err != nil {
+					return err
+				}
+			}
+		}
 		return nil
 	}
 	if len(text) <= 6000 {
@@ -515,6 +525,37 @@ func exhaustiveC06(thorough bool, emit func(C06Case) bool) {
 						return
 					}
 				}
+			}
+		}
+	}
+	// files of 5 MiB (4 MiB and a bit in the quick tier) made of lines of exactly 128 bytes, so that a
+	// line starts at every multiple of 1 MiB (and of every smaller power of two): File against Reader
+	{
+		pad := func(s string, n int) string { return s + strings.Repeat("A", n-len(s)) }
+		block := map[string][]string{
+			"fasta":  {pad(">read", 127), pad("ACGT", 127)},
+			"fastq":  {pad("@read", 127), pad("ACGT", 127), pad("+", 127), pad("IIII", 127)},
+			"sam":    {pad("q\t0\tr\t1\t2\tM\t=\t4\t5\tA\tI\tXX:Z:", 127)},
+			"samh":   {pad("q\t0\tr\t1\t2\tM\t=\t4\t5\tA\tI\tXX:Z:", 127), pad("@CO\t", 127)},
+			"bed":    {pad("c\t1\t2\t", 127)},
+			"newick": {pad("(a,b)", 126) + ";"},
+		}
+		size := 4<<20 + 4096
+		if thorough {
+			size = 5<<20 + 1<<19
+		}
+		for _, f := range codecNames {
+			var ls []gen.B
+			n := 0
+			for _, l := range block[f] {
+				ls = append(ls, gen.B(l))
+				n += len(l) + 1
+			}
+			if f == "fastq" {
+				ls[2] = gen.B("+" + strings.Repeat("A", 126)) // "+read-name" form of the separator line
+			}
+			if !emit(C06Case{Format: f, Text: StreamText{Lines: ls, Reps: size / n}, Chunks: []int{1 << 20}, Files: true, Light: true}) {
+				return
 			}
 		}
 	}
